@@ -1160,6 +1160,22 @@ def roundconv_cases(tier, seed, shard):
             b = (rnd.getrandbits(1) << (ew + mw)) | (rnd.randint(top // 2 - 8, top // 2 + 8) << mw) | rnd.choice(((1 << mw) - 1, rnd.getrandbits(mw)))
             yield dict(kind='roundconv', op=rnd.choice(('mul', 'add', 'sub')), a=['pat', fmt, hex(a)], b=['pat', fmt, hex(b)],
                        mut=[rnd.choice(('reducePrecisionWithRounding', 'reducePrecision')), prec], fmts=[fmt])
+        # a rounding carry out of the subnormal range: the value becomes the smallest normal number
+        bias_ = (1 << (ew - 1)) - 1
+        for sgn_ in (1, -1):
+            yield dict(kind='roundconv', semp=[sgn_, -bias_, hex(2 << mw), hex(1 << mw)], fmts=[fmt])
+            yield dict(kind='roundconv', semp=[sgn_, -bias_, hex((2 << mw) - 1), hex(1 << mw)], fmts=[fmt])
+            yield dict(kind='roundconv', semp=[sgn_, 1 - bias_, hex((1 << mw) - 1), hex(1 << mw)], fmts=[fmt])
+        if fmt != 'dp':
+            import struct
+            # doubles just below the smallest normal of the narrower format, rounded to its precision
+            for frac in (1, 2, 3, 4, 8):
+                x = (2.0 ** (1 - bias_)) * (1 - 2.0 ** -(mw + frac))
+                for x_ in (x, -x):
+                    bits = struct.unpack('>Q', struct.pack('>d', x_))[0]
+                    zero = 0 if x_ > 0 else (1 << 63)
+                    for mut in ('reducePrecisionWithRounding', 'reducePrecision'):
+                        yield dict(kind='roundconv', op='add', a=['pat', 'dp', hex(bits)], b=['pat', 'dp', hex(zero)], mut=[mut, prec], fmts=[fmt])
         # objects one step out of canonical form, set directly: m in [2p, 4p) and m in [p/2, p)
         for _ in range(60 if quick else 600):
             pk = rnd.choice((mw, mw, rnd.randint(1, mw)))
